@@ -55,6 +55,7 @@ class Gen:
         self.thorough = ctx.tier == "thorough"
         self.cases = []
         self.cbc_enc_jobs = []   # (key, iv, msg) whose ciphertext is needed for decrypt cases
+        self.aes_enc_jobs = []
 
     def add(self, line, cell):
         self.cases.append((line, cell))
@@ -309,6 +310,45 @@ class Gen:
             for dr in ("enc", "dec"):
                 self.add("s_ecb %s %s %s 0" % (dr, hk, chunks_str(r.split(r.bytes(n), 2))), "s_ecb:%s:partial-total" % dr)
 
+    def aes_modes(self):
+        """src/aes_modes.c (one-shot API only): every key size, lengths dense, in place for encryption"""
+        r = self.r
+        top = 100 if not self.thorough else 600
+        for kl in (16, 24, 32):
+            key = r.bytes(kl)
+            hk = hexs(key)
+            for n in list(range(0, top + 1)) + ([255, 256, 257, 1023, 1024, 1025] if kl == 16 else []):
+                iv, m = r.bytes(16), r.bytes(n)
+                ip = 1 if r.chance(1, 2) else 0
+                lc = lclass(n)
+                d = m[:n - n % 16]
+                self.add("a_cbcpad enc %s %s %s %d" % (hk, hexs(iv), hexs(m), ip), "a_cbcpad:enc:k%d:%s" % (kl, lc) + (":inplace" if ip else ""))
+                self.add("a_ctr %s %s %s %d" % (hk, hexs(iv), hexs(m), ip), "a_ctr:k%d:%s" % (kl, lc) + (":inplace" if ip else ""))
+                if n % 3 == 0:
+                    self.add("a_cbcblocks enc %s %s %s %d" % (hk, hexs(iv), hexs(d), ip), "a_cbcblocks:enc:k%d:%s" % (kl, "n0" if not d else "n>0") + (":inplace" if ip else ""))
+                    self.add("a_cbcblocks dec %s %s %s 0" % (hk, hexs(iv), hexs(d)), "a_cbcblocks:dec:k%d:%s" % (kl, "n0" if not d else "n>0"))
+                self.aes_enc_jobs.append((key, iv, m))
+            for c in ("ff" * 16, "00" * 8 + "ff" * 8, "00" * 12 + "ffffffff", "ff" * 15 + "fe"):
+                self.add("a_ctr %s %s %s 0" % (hk, c, hexs(r.bytes(50))), "a_ctr:k%d:counter-edge" % kl)
+            for n in (0, 1, 15, 17, 33):
+                self.add("a_cbcpad dec %s %s %s 0" % (hk, hexs(r.bytes(16)), hexs(r.bytes(n))), "a_cbcpad:dec:k%d:badlen" % kl)
+            for i in range(12):
+                self.add("a_cbcpad dec %s %s %s 0" % (hk, hexs(r.bytes(16)), hexs(r.bytes(16 * r.range(1, 3)))), "a_cbcpad:dec:k%d:random-ciphertext" % kl)
+        for kl in (0, 15, 17, 33):
+            self.add("a_cbcpad enc %s %s 00 0" % (hexs(r.bytes(kl)), hexs(r.bytes(16))), "a_cbcpad:enc:bad-keylen")
+
+    def aes_decrypt_cases(self, impl_exe):
+        jobs = self.aes_enc_jobs
+        lines = ["a_cbcpad enc %s %s %s 0" % (hexs(k), hexs(iv), hexs(m)) for (k, iv, m) in jobs]
+        outs, _ = core.run_lines(impl_exe, lines)
+        for (k, iv, m), ct in zip(jobs, outs):
+            if not re.fullmatch(r"[0-9a-f]+", ct or "") or len(ct) % 32:
+                continue
+            self.add("a_cbcpad dec %s %s %s 0" % (hexs(k), hexs(iv), ct), "a_cbcpad:dec:k%d:%s" % (len(k), lclass(len(m))))
+            if self.r.chance(1, 8):
+                t = bytearray(bytes.fromhex(ct)); t[-1 - self.r.below(16)] ^= 1 << self.r.below(8)
+                self.add("a_cbcpad dec %s %s %s 0" % (hexs(k), hexs(iv), hexs(bytes(t))), "a_cbcpad:dec:k%d:tampered" % len(k))
+
     def cbc_decrypt_cases(self, impl_exe):
         """ciphertexts for the decrypt direction are produced by the implementation itself (they are
         only inputs; what is checked is how both sides decrypt them)"""
@@ -377,7 +417,7 @@ def run(ctx):
         ctx.cell("tables:sm4:all-entries")
     variants = ["asan"] if ctx.tier == "quick" else ["asan", "small", "aesni", "avx2"]
     g = Gen(ctx)
-    g.block_cipher(); g.dense(); g.chunkings(); g.counters(); g.malformed()
+    g.block_cipher(); g.dense(); g.chunkings(); g.counters(); g.malformed(); g.aes_modes()
     model_out = None
     for v in variants:
         exe, log = core.build_harness("C04", v)
@@ -391,6 +431,7 @@ def run(ctx):
             continue
         if model_out is None:
             g.cbc_decrypt_cases(exe)
+            g.aes_decrypt_cases(exe)
             t0 = time.time()
             model_out, _ = core.run_lines(model, [c[0] for c in g.cases])
             ctx.notes.append("model: %.1fs, %d cases (evaluated once, compared with every variant)" % (time.time() - t0, len(g.cases)))
@@ -430,7 +471,7 @@ def finish(ctx):
     ctx.assumptions = [
         "SM4 Spec = my transcription of GB/T 32907-2016 (S-box, L, L', FK, CK_i formula), pinned by the appendix-A vector (Example sm4_vector, vm_compute)",
         "mode Specs = my transcription of GB/T 17964 / SP 800-38A (ECB, CBC, CTR, OFB, CFB-s), PKCS#7 (removal inspects the last byte only, as the library does), GB/T 17964 XTS (GCM bit order tweak), zero-padded CBC-MAC as implemented",
-        "not theorems, compared on every case at run time by the driver instead: xts_encrypt_raw/xts_decrypt_raw = xts_enc_spec/xts_dec_spec (index form of the tweaks and of ciphertext stealing), and xts_mul2 (gf128.c bit-reversed 64-bit words) = xts_mul2_spec (shift of the 128-bit string)",
+        "XTS: raw functions = index-form Spec and xts_mul2 (bit-reversed words of gf128.c) = multiplication by x are theorems since wave 3; the driver still compares Impl with Spec on every case",
         "the rotating register names of the unrolled ROUND lines and the word-wise xor of the table-driven *_blocks functions are modelled at block level",
         "C04_impl_block_functions_eq_spec uses functional_extensionality_dep (Coq standard library); everything else is closed",
         "AES-NI/AVX2/small-footprint code paths are covered by correspondence only, thorough tier (same Spec); the byte-wise ctr_incr/ctr32_incr of the small-footprint build are modelled and proved",
